@@ -21,6 +21,9 @@ EXPLANATION = (
 EXPLANATION += (  # round-3 supplement
     ' P5 the first line is skipped exactly when it starts with `#!`. P6 doubled braces are collapsed only on the f-string path. P7 integer literals are range-checked somewhere between parser and narrowing cast (known finding).'
 )
+EXPLANATION += (
+    ' P8 the string and char literal scanners follow the escape transition table of the grammar for every (state, character class) - evaluated on the closure by the finite-domain evaluator, independent of how the state machine is written.'
+)
 ASSUMPTIONS = [
     "the language reference (docs/source/reference/language_reference.md) is the specification of precedence",
     "escape decoding is delegated to rustc_literal_escaper (trusted)",
@@ -604,6 +607,64 @@ def rule_p1(F):
     return r
 
 
+def rule_p8(F):
+    """Where a quoted literal ends: the scanners of string and char literals walk the text with a one-bit state 'the previous
+    character was an unescaped backslash'.  The transition table is fixed by the grammar and is evaluated here for every
+    combination of state and character class (finite: 2 x 3), whatever the code looks like: an escaped character never ends the
+    literal and never escapes the next one (`"C:\\"` ends at its last quote); an unescaped quote ends it; an unescaped backslash
+    escapes exactly the next character."""
+    from .. import symex
+    r = RuleResult("C09.P8", "string / char literal scanners: the escape state follows the grammar's transition table for every (state, character class)", floor=2)
+    n = 0
+    for fn in ("string", "char"):
+        ps = [p for p in F.paths() if "parser::lexer::Lexer" in p and p.split("::{closure")[0].endswith("::" + fn) and "{closure" in p]
+        for p in ps:
+            cb = F.body(p)
+            if cb is None or not cb.hir:
+                continue
+            params = [x for x in cb.hir.get("params", []) if x.get("k") == "bind"]
+            if len(params) != 1 or "char" not in (params[0].get("ty") or ""):
+                continue
+            # the captured state: a bool local that is assigned in the closure but bound outside it
+            bound = {x.get("local") for x in hir.walk(cb.hir) if x.get("k") == "bind"}
+            flags = set()
+            for x in hir.walk(cb.hir["value"]):
+                if x.get("k") in ("assign", "assignop"):
+                    l = hir.res_local(hir.peel_refs(hir.strip(x["lhs"])))
+                    if l is not None and l not in bound:
+                        flags.add(l)
+            chars = {x.get("v") for x in hir.walk(cb.hir["value"]) if x.get("k") in ("lit", "plit") and (x.get("ty") == "char" or x.get("lk") == "char")}
+            quotes = [c for c in chars if c != "\\"]
+            if len(flags) != 1 or "\\" not in chars or len(quotes) != 1:
+                r.missing("escape state and the two special characters in the scanner closure of Lexer::%s (state vars %d, chars %s)" % (fn, len(flags), sorted(map(str, chars))))
+                continue
+            flag, q = list(flags)[0], quotes[0]
+            n += 1
+            expected = {(True, q): (False, False), (True, "\\"): (False, False), (True, "a"): (False, False),
+                        (False, q): (True, None), (False, "\\"): (False, True), (False, "a"): (False, False)}
+            rows = {}
+            bad = []
+            for (st, ch), (eret, eflag) in expected.items():
+                try:
+                    m = symex.Machine(cb.hir, {flag: st, params[0]["local"]: ch})
+                    ret = m.run()
+                    got = (ret, m.env.get(flag))
+                except symex.Unknown as e:
+                    r.missing("an evaluable scanner closure in Lexer::%s (%s)" % (fn, e))
+                    got = None
+                    break
+                rows["escaped=%s, %s" % (st, {q: "quote", "\\": "backslash"}.get(ch, "other"))] = {"ends": got[0], "escaped_next": got[1]}
+                if got[0] != eret or (eflag is not None and got[1] != eflag):
+                    bad.append("state escaped=%s, character %s: ends=%s escaped_next=%s (grammar: ends=%s escaped_next=%s)" % (st, {q: "quote", "\\": "backslash"}.get(ch, "other"), got[0], got[1], eret, eflag))
+            r.inst("Lexer::%s scanner" % fn, {"closure": p, "table": rows})
+            if bad:
+                r.bad(p.split("::{closure")[0], "escape transition table", relfile(cb.file), cb.line,
+                      "the scanner of %s literals deviates from the grammar: %s - a literal that ends in an escaped backslash does not end at its closing quote (or an escaped quote ends it)" % (fn, "; ".join(bad)))
+    if n < 2:
+        r.missing("the scanner closures of Lexer::string and Lexer::char (found %d)" % n)
+    return r
+
+
 def rules(ctx):
     F = ctx["F"]
-    return [rule_p1(F), rule_p2(F), rule_p3(F), rule_p4(F), rule_p5(F), rule_p6(F), rule_p7(F)]
+    return [rule_p1(F), rule_p2(F), rule_p3(F), rule_p4(F), rule_p5(F), rule_p6(F), rule_p7(F), rule_p8(F)]
